@@ -181,4 +181,16 @@ def bd : List String := ["bindump c17/w/t/a"]
 #guard (binSummary "x" (encodeFile (tinyImage "x.c"))).startsWith "binsum x size=213 drv=7 cfg=1000 name=782e63 total=168 inh=- str=1:"
 #guard binSummary "x" ((encodeFile (tinyImage "x.c")).take 100) == "binsum x undecodable"
 
+/-! an include found through the search path is shadowed by a new file next to the source -/
+def shadowCase (extra : List String) : List String :=
+  ["clean /c17/w/t", "file /include/s.h 00", "mtime /include/s.h 90", "file /c17/w/t/a.c 00", "mtime /c17/w/t/a.c 100",
+   "prog c17/w/t/a.c save=1 inc=include/s.h inh=- ssw=0", "incsearch c17/w/t/a.c c17/w/t/s.h include/s.h",
+   "mtime /simul_efun.c 50", "restart c17/w/t/a", "now 110", "reload c17/w/t/a"] ++ extra ++ ["now 130", "reload c17/w/t/a"]
+def shadowTrace (second : String) : List String :=
+  ["restarted 50", "begin 1", "lb c17/w/t/a.c stale", "sv c17/w/t/a.c 110 inc=include/s.h", "end 1", "begin 2", second, "end 2"]
+#guard judge (shadowCase []) (shadowTrace "lb c17/w/t/a.c use") == []
+#guard has (judge (shadowCase ["file /c17/w/t/s.h 00", "mtime /c17/w/t/s.h 80"]) (shadowTrace "lb c17/w/t/a.c use"))
+  "stale-binary-used c17/w/t/a.c dep=include-shadowed-by:c17/w/t/s.h"
+#guard judge (shadowCase ["file /c17/w/t/s.h 00", "mtime /c17/w/t/s.h 80"]) (shadowTrace "lb c17/w/t/a.c stale") == []
+
 end NV.C17.SpecTests
